@@ -184,6 +184,65 @@ def pipe4(base: int, c0: int, c1: int, c2: int, c3: int, xs: List[int], a: int, 
     return _run_pipeline(base, [c0, c1, c2, c3], xs, a, b, thr)
 
 
+# ---- a per-element failure inside a stage: the consumer may catch it and keep pulling, exactly as with map()/filter() ---
+class StageBoom(Exception):
+    pass
+
+
+def _guarded(f, bad):
+    def g(v):
+        if v == bad:
+            raise StageBoom(v)
+        return f(v)
+    return g
+
+
+def _stage_pair(kind, a, thr, bad):
+    """(Iter method application, plain-Python stage) whose user callable raises for the element `bad`"""
+    f = [_guarded(lambda v: v * 2 - a, bad), _guarded(lambda v: v > thr, bad), None, _guarded(lambda v: v < thr, bad),
+         _guarded(lambda v: v < thr, bad)][kind] if kind in (0, 1, 3, 4) else None
+    if kind == 0:
+        return (lambda it: it.map(f)), (lambda src: map(f, src))
+    if kind == 1:
+        return (lambda it: it.filter(f)), (lambda src: filter(f, src))
+    if kind == 3:
+        return (lambda it: it.takewhile(f)), (lambda src: itertools.takewhile(f, src))
+    if kind == 4:
+        return (lambda it: it.dropwhile(f)), (lambda src: itertools.dropwhile(f, src))
+    return (lambda it: add_stage(it, kind, a, thr)), (lambda src: ref_stage(src, kind, a, thr))
+
+
+def _drain(stream, n):
+    events = []
+    for _ in range(n):
+        try:
+            events.append(('v', next(stream)))
+        except StopIteration:
+            events.append('stop')
+            break
+        except StageBoom:
+            events.append('boom')
+    return events
+
+
+def resume(c0: int, c1: int, xs: List[int], bad: int, a: int, thr: int) -> bool:
+    start()
+    c0, c1 = concretize(c0, 0, 6), concretize(c1, 0, 6)
+    if c0 is OUT or c1 is OUT:
+        return True
+    g0, r0 = _stage_pair(c0, a, thr, bad)
+    g1, r1 = _stage_pair(c1, a, thr, bad)
+    stream = run(lambda: glom(list(xs), g1(g0(Iter())), glom_debug=True))
+    ref = run(lambda: r1(r0(iter(list(xs)))))
+    if stream.kind != 'ok' or ref.kind != 'ok':
+        return stream.kind == ref.kind or fail(why='construction', got=stream, exp=ref)
+    got, exp = _drain(stream.value, len(xs) + 3), _drain(ref.value, len(xs) + 3)
+    reach('resume')
+    if 'boom' in exp and exp[-1] != 'boom' and exp.index('boom') < len(exp) - 2:
+        reach('resumed_after_boom')
+    return got == exp or fail(why='after a per-element failure the stream continues as the plain composition does', got=got, exp=exp, c0=c0, c1=c1)
+
+
 def first_eq(which: int, xs: List[int], thr: int, d: int) -> bool:
     """first() terminates with the first truthy / matching element or the default"""
     start()
@@ -370,6 +429,9 @@ def obligations(tier):
     for c0 in LAZY_KINDS:
         obs.append(Ob(lazy, fixed={'c0': c0}, pre=lk + ' and 0 <= k <= 3 and -1 <= a <= 3 and -1 <= thr <= 3',
                       name='lazy_%s_any' % STAGE_NAMES[c0], timeout=150))
+    for c0 in (0, 1, 3, 4):
+        obs.append(Ob(resume, fixed={'c0': c0}, pre='0 <= c1 <= 6 and %s' % rng, name='resume_%s_any' % STAGE_NAMES[c0], timeout=150))
+    obs.append(Ob(resume, fixed={'c0': 0}, pre='0 <= c1 <= 6 and %s' % rng, twin='resumed_after_boom', name='resume_map_any'))
     for w in range(2):
         obs.append(Ob(lazy_first, fixed={'which': w}, pre='-1 <= thr <= 4', name='lazy_first_%d' % w))
     for b0 in range(11):
